@@ -10,12 +10,11 @@ General theorems (every table, every `Sem`, every history, every configuration):
   construct_computes_nothing, reads_preserve_input, reads_preserve_results.
 Generated side condition, decided per class over ALL configurations of its flags:
   <class>_noInterference.
-Where today's code interferes (recorded findings; `proposed_fixes/C13-*`), the statements are about
-edits of the generated table so that they hold before and after the repair:
-  `…_intended` (table without the offending effect satisfies the side condition),
-  `…_counterexample` (table with the effect does not; plus a concrete run of the machine on which
-  the order matters), `…_partial` (the untouched generated table, configurations that avoid the
-  effect), `…_table_is_intended_or_current` (the generated table is one of the two).
+The three defects found (in-place unwrap of the cached phase; in-place insertion into the cached
+target dictionaries; `method['Fs']` filled only by a getter) are repaired in the repo; the regenerated
+tables of those classes now satisfy the side condition.  `inplace_rewrite_*` / `late_fill_*` show on
+edits of the generated tables that the side condition refutes exactly such effects (non-vacuity).
+FilterAnalyzer with `ub=None` remains `_partial` + `_counterexample` (benign by value, see there).
 -/
 import Nitime.Lemmas.OneTime
 import Nitime.Generated.Analyzers
@@ -154,32 +153,12 @@ theorem FilterAnalyzer_ubNone_counterexample :
     noInterferenceB (spec_FilterAnalyzer.resolve [f_FilterAnalyzer_none_ub])
       (spec_FilterAnalyzer.present [f_FilterAnalyzer_none_ub]) = false := by decide
 
-/-! #### CoherenceAnalyzer: `delay` unwraps (a view of) the cached `phase` in place when
-`unwrap_phases=True` (finding C13 CoherenceAnalyzer/phase/rewritten-by-reading/delay). -/
-def coherenceIntended : AnalyzerSpec :=
-  spec_CoherenceAnalyzer.strip g_CoherenceAnalyzer_delay [g_CoherenceAnalyzer_phase] []
-def coherenceCurrent : AnalyzerSpec :=
-  spec_CoherenceAnalyzer.addClobber g_CoherenceAnalyzer_delay g_CoherenceAnalyzer_phase
-    (some (f_CoherenceAnalyzer_truthy__unwrap_phases, true))
-
-theorem CoherenceAnalyzer_intended : okAll coherenceIntended := by decide
-
-theorem CoherenceAnalyzer_partial :
-    ∀ cfg ∈ allCfgs spec_CoherenceAnalyzer.flagNames.length,
-      ¬ cfg.contains f_CoherenceAnalyzer_truthy__unwrap_phases →
-      noInterferenceB (spec_CoherenceAnalyzer.resolve cfg) (spec_CoherenceAnalyzer.present cfg) = true := by
-  decide
-
-theorem CoherenceAnalyzer_unwrap_counterexample :
-    ∀ cfg ∈ allCfgs coherenceCurrent.flagNames.length,
-      cfg.contains f_CoherenceAnalyzer_truthy__unwrap_phases →
-      noInterferenceB (coherenceCurrent.resolve cfg) (coherenceCurrent.present cfg) = false := by
-  decide
-
-theorem CoherenceAnalyzer_table_is_intended_or_current :
-    ∀ cfg ∈ allCfgs spec_CoherenceAnalyzer.flagNames.length,
-      spec_CoherenceAnalyzer.resolve cfg = coherenceIntended.resolve cfg ∨
-      spec_CoherenceAnalyzer.resolve cfg = coherenceCurrent.resolve cfg := by decide
+/-! #### CoherenceAnalyzer, SeedCoherenceAnalyzer — repaired (findings C13
+CoherenceAnalyzer/phase/rewritten-by-reading/delay, SeedCoherenceAnalyzer/target_cache/…,
+SeedCoherenceAnalyzer/*/differs-from-fresh/after/target_cache; repo commits 7c8710e, 674b88e,
+8f82d24).  The regenerated tables satisfy the side condition in every configuration. -/
+theorem CoherenceAnalyzer_noInterference : okAll spec_CoherenceAnalyzer := by decide
+theorem SeedCoherenceAnalyzer_noInterference : okAll spec_SeedCoherenceAnalyzer := by decide
 
 /-- a semantics over numbers on which the effects are visible -/
 def numSem : Sem Nat Nat :=
@@ -189,50 +168,32 @@ def numSem : Sem Nat Nat :=
     CI := fun _ x => x + 1
     D := fun p x => p + x }
 
-/-- On the table with the in-place unwrap the order matters: `phase` read after `delay` is not the
-    `phase` a fresh object returns (concrete run of the machine). -/
-theorem CoherenceAnalyzer_unwrap_order_matters :
-    let spec := coherenceCurrent.resolve [f_CoherenceAnalyzer_truthy__unwrap_phases]
+/-- The side condition is not idle: put the in-place unwrap of `phase` by `delay` (the defect that
+    was repaired) back into the generated table and it is refuted … -/
+theorem inplace_rewrite_refutes_side_condition :
+    ∀ cfg ∈ allCfgs spec_CoherenceAnalyzer.flagNames.length,
+      noInterferenceB ((spec_CoherenceAnalyzer.addClobber g_CoherenceAnalyzer_delay
+        g_CoherenceAnalyzer_phase none).resolve cfg) (spec_CoherenceAnalyzer.present cfg) = false := by
+  decide
+
+/-- … and on that table the order of reads matters (concrete run of the machine): `phase` read
+    after `delay` is not the `phase` a fresh object returns. -/
+theorem inplace_rewrite_order_matters :
+    let spec := (spec_CoherenceAnalyzer.addClobber g_CoherenceAnalyzer_delay
+      g_CoherenceAnalyzer_phase none).resolve []
     let s0 := construct numSem [] (fun p => some p) 3
     (read spec numSem g_CoherenceAnalyzer_phase
         (run spec numSem [g_CoherenceAnalyzer_delay] s0)).2
       ≠ (read spec numSem g_CoherenceAnalyzer_phase s0).2 := by decide
 
-/-! #### SeedCoherenceAnalyzer: `coherency` inserts the seed's FFT slices into the cached
-`target_cache` dictionary, and `method['Fs']` is filled only by `frequencies`, after which
-`target_cache` computes something else (findings C13 SeedCoherenceAnalyzer/…). -/
-def seedIntended : AnalyzerSpec :=
-  spec_SeedCoherenceAnalyzer.strip g_SeedCoherenceAnalyzer_coherency
-    [g_SeedCoherenceAnalyzer_target_cache] []
-def seedCurrent : AnalyzerSpec :=
-  spec_SeedCoherenceAnalyzer.addClobber g_SeedCoherenceAnalyzer_coherency
-    g_SeedCoherenceAnalyzer_target_cache none
-
-/-- with `method['Fs']` present after `__init__` and without the in-place insertion: no interference -/
-theorem SeedCoherenceAnalyzer_intended :
-    ∀ cfg ∈ allCfgs seedIntended.flagNames.length,
-      noInterferenceB (seedIntended.resolve cfg) [s_SeedCoherenceAnalyzer_method_Fs] = true := by decide
-
-theorem SeedCoherenceAnalyzer_clobber_counterexample :
-    ∀ cfg ∈ allCfgs seedCurrent.flagNames.length,
-      noInterferenceB (seedCurrent.resolve cfg) [s_SeedCoherenceAnalyzer_method_Fs] = false := by decide
-
-/-- `method['Fs']` not guaranteed by `__init__`: the fill by `frequencies` interferes with the readers -/
-theorem SeedCoherenceAnalyzer_fs_counterexample :
-    ∀ cfg ∈ allCfgs seedIntended.flagNames.length,
-      noInterferenceB (seedIntended.resolve cfg) [] = false := by decide
-
-theorem SeedCoherenceAnalyzer_table_is_intended_or_current :
+/-- likewise a fill-if-missing write of a slot that `__init__` does not fill (what
+    `SeedCoherenceAnalyzer.frequencies` did to `method['Fs']`): refuted when the slot is not
+    guaranteed, fine when it is -/
+theorem late_fill_refutes_side_condition :
     ∀ cfg ∈ allCfgs spec_SeedCoherenceAnalyzer.flagNames.length,
-      spec_SeedCoherenceAnalyzer.resolve cfg = seedIntended.resolve cfg ∨
-      spec_SeedCoherenceAnalyzer.resolve cfg = seedCurrent.resolve cfg := by decide
-
-theorem SeedCoherenceAnalyzer_order_matters :
-    let spec := seedCurrent.resolve []
-    let s0 := construct numSem [] (fun p => if p = s_SeedCoherenceAnalyzer_method_Fs then none else some p) 3
-    (read spec numSem g_SeedCoherenceAnalyzer_target_cache
-        (run spec numSem [g_SeedCoherenceAnalyzer_frequencies] s0)).2
-      ≠ (read spec numSem g_SeedCoherenceAnalyzer_target_cache s0).2 := by decide
+      noInterferenceB (spec_SeedCoherenceAnalyzer.resolve cfg) [] = false ∧
+      noInterferenceB (spec_SeedCoherenceAnalyzer.resolve cfg) [s_SeedCoherenceAnalyzer_method_Fs] = true := by
+  decide
 
 /-- every generated table lists the getters in dependency order (so `read`'s budget suffices) -/
 theorem all_tables_sorted :
